@@ -128,6 +128,7 @@ class E1(Base):
     TABULATED = 0.35
     #: share of online-class runs finalised late by injected finalize calls
     LATE_FIN = 0.0
+    OBS_KINDS = None
 
     def draw_slot(self, rng, tier):
         nmax, rfmax = self.SIZES[tier]
@@ -164,6 +165,7 @@ class E1(Base):
             faults = dict(faults, fin=0.35)
         return Plan([(cfg, passes, style)], faults=faults,
                     overrun=self.OVERRUN, knobs=[("planner", planner)],
+                    obs_kinds=self.OBS_KINDS,
                     conclude_obs=2 if faults.get("obs") else 0)
 
     def box_size(self):
